@@ -155,3 +155,155 @@ Example sort_premises_hold :
   sorted_with h0 (@isort _) ex_items true = [VAtom (AStr [100]); VAtom (AStr [97]); VAtom (AStr [99]); VAtom (AStr [98]); VAtom (AStr [101])] /\
   minmax h0 LT ex_items = Some (Ok (VAtom (AStr [98]))) /\ minmax h0 GT ex_items = Some (Ok (VAtom (AStr [100]))).
 Proof. vm_compute. repeat split; discriminate. Qed.
+
+(* ======================================================================
+   dict and set IN the theorem universe (ModelColl.cval: the universe above plus
+   CDict -- insertion-ordered entries, keys any hashable value of the universe
+   above, nested tuples included, values any cval -- and CSet).
+   cok v := cfits CompareLimit v : boolean guard -- nesting within the depth limit
+   and every dict / set inside v is one the hashtable can hold (keys hashable,
+   comparable by Equal at its fresh CompareLimit, pairwise non-==).
+   kok k : boolean guard on a key -- hashable and fits CompareLimit.
+   ====================================================================== *)
+From SV Require Import C11.ModelColl C11.ProofsCollKeys C11.ProofsColl C11.ProofsCollLaws C11.ProofsCollProps C11.ProofsCollInj.
+
+(* the extension is conservative: on EVERY value of Model.v (its atom-keyed dicts and
+   sets included -- the ones the correspondence check runs against the implementation),
+   every operator and every depth, the extended CompareDepth is the existing one; and
+   the guard of the theorems above implies the guard of the theorems below *)
+Theorem coll_conservative :
+  forall hs,
+    (forall d op x y, ccompare_depth hs d op (inj x) (inj y) = compare_depth hs d op x y) /\
+    (forall d x, fits d x = true -> cfits hs d (inj x) = true).
+Proof. exact inj_conservative_all. Qed.
+
+(* == is reflexive (NaN inside dict values included), symmetric, transitive on ALL values *)
+Theorem eq_equivalence_coll :
+  forall hs,
+    (forall x, cok hs x = true -> ccompare hs EQL x x = Ok true) /\
+    (forall x y, cok hs x = true -> cok hs y = true -> ccompare hs EQL x y = ccompare hs EQL y x) /\
+    (forall x y z, cok hs x = true -> cok hs y = true -> cok hs z = true ->
+       ccompare hs EQL x y = Ok true -> ccompare hs EQL y z = Ok true -> ccompare hs EQL x z = Ok true).
+Proof. intro hs. exact (conj (ceq_refl_lemma hs) (conj (ceq_sym_lemma hs) (ceq_trans_lemma hs))). Qed.
+
+(* within the limit == always answers, and != answers the negation *)
+Theorem neq_is_negation_coll :
+  forall hs x y, cok hs x = true -> cok hs y = true ->
+    exists b, ccompare hs EQL x y = Ok b /\ ccompare hs NEQ x y = Ok (negb b).
+Proof. exact ceq_total_lemma. Qed.
+
+(* == values are interchangeable in == and != against any third value, on either side *)
+Theorem eq_interchangeable_coll :
+  forall hs x y z, cok hs x = true -> cok hs y = true -> cok hs z = true -> ccompare hs EQL x y = Ok true ->
+    (ccompare hs EQL x z = ccompare hs EQL y z /\ ccompare hs NEQ x z = ccompare hs NEQ y z) /\
+    (ccompare hs EQL z x = ccompare hs EQL z y /\ ccompare hs NEQ z x = ccompare hs NEQ z y).
+Proof. exact ceq_congr_lemma. Qed.
+
+(* dicts are == exactly when each one's entries are found in the other modulo == of
+   keys and == of values (one level down): nothing about the order of the entries *)
+Theorem dict_eq_spec :
+  forall hs a b, cok hs (CDict a) = true -> cok hs (CDict b) = true ->
+    (ccompare hs EQL (CDict a) (CDict b) = Ok true <->
+     ((forall k v, In (k, v) a -> exists k' v', In (k', v') b /\ compare hs EQL k k' = Ok true /\
+                                          ccompare_depth hs (pred CompareLimit) EQL v v' = Ok true) /\
+      (forall k v, In (k, v) b -> exists k' v', In (k', v') a /\ compare hs EQL k k' = Ok true /\
+                                          ccompare_depth hs (pred CompareLimit) EQL v v' = Ok true))).
+Proof. exact dict_eq_spec_lemma. Qed.
+
+(* permuting the entries of a dict / the elements of a set preserves well-formedness and == *)
+Theorem dict_eq_order_insensitive :
+  forall hs,
+    (forall kv kv', Permutation kv kv' -> cok hs (CDict kv) = true ->
+       cok hs (CDict kv') = true /\ ccompare hs EQL (CDict kv) (CDict kv') = Ok true) /\
+    (forall ks ks', Permutation ks ks' -> cok hs (CSet ks) = true ->
+       cok hs (CSet ks') = true /\ ccompare hs EQL (CSet ks) (CSet ks') = Ok true).
+Proof. intro hs. exact (conj (dict_perm_eq hs) (set_perm_eq hs)). Qed.
+
+(* k == k' (1 / 1.0, (1, "x") / (1.0, "x"), ...): every dict and set answers the same
+   for both (Get, `in`, Has), and inserting under k' into a dict that has k updates
+   that entry -- the key list is unchanged, no second entry *)
+Theorem eq_interchangeable_keys :
+  forall hs k k', kok hs k = true -> kok hs k' = true -> compare hs EQL k k' = Ok true ->
+    (forall (A : Type) (kv : list (value * A)), forallb (kok hs) (map fst kv) = true ->
+       cdict_get hs kv k = cdict_get hs kv k' /\ cin_dict hs kv k = cin_dict hs kv k') /\
+    (forall ks, forallb (kok hs) ks = true -> cset_has hs ks k = cset_has hs ks k') /\
+    (forall (A : Type) (kv : list (value * A)) (v' : A), forallb (kok hs) (map fst kv) = true -> cin_dict hs kv k = true ->
+       exists kv', cdict_insert hs kv k' v' = Ok kv' /\ map fst kv' = map fst kv /\
+                   cdict_get hs kv' k = Ok (Some v') /\ cdict_get hs kv' k' = Ok (Some v')).
+Proof. exact eq_keys_lemma. Qed.
+
+(* Get / Has do not depend on the order in which the entries are probed (the model probes in
+   insertion order, the implementation in bucket order) *)
+Theorem lookup_order_insensitive :
+  forall hs k, kok hs k = true ->
+    (forall (A : Type) (kv kv' : list (value * A)), Permutation kv kv' -> keys_wf hs (map fst kv) = true ->
+       cdict_get hs kv k = cdict_get hs kv' k) /\
+    (forall ks ks', Permutation ks ks' -> keys_wf hs ks = true -> cset_has hs ks k = cset_has hs ks' k).
+Proof. exact lookup_perm_lemma. Qed.
+
+(* <, <=, >, >= on two dicts are errors *)
+Theorem dict_unordered :
+  forall hs d op a b, is_eqop op = false -> ccompare_depth hs (S d) op (CDict a) (CDict b) = ErrUnord.
+Proof. exact dict_unordered_lemma. Qed.
+
+(* the subset operators on sets: <= is a partial order whose equivalence is ==; all
+   six operators always answer, < is (<= and not ==), >= and > are the converses *)
+Theorem set_order_partial :
+  forall hs,
+    (forall a, cok hs (CSet a) = true -> ccompare hs LE (CSet a) (CSet a) = Ok true) /\
+    (forall a b, cok hs (CSet a) = true -> cok hs (CSet b) = true ->
+       ccompare hs LE (CSet a) (CSet b) = Ok true -> ccompare hs LE (CSet b) (CSet a) = Ok true ->
+       ccompare hs EQL (CSet a) (CSet b) = Ok true) /\
+    (forall a b c, cok hs (CSet a) = true -> cok hs (CSet b) = true -> cok hs (CSet c) = true ->
+       ccompare hs LE (CSet a) (CSet b) = Ok true -> ccompare hs LE (CSet b) (CSet c) = Ok true ->
+       ccompare hs LE (CSet a) (CSet c) = Ok true) /\
+    (forall a b, cok hs (CSet a) = true -> cok hs (CSet b) = true ->
+       exists e le,
+         ccompare hs EQL (CSet a) (CSet b) = Ok e /\ ccompare hs NEQ (CSet a) (CSet b) = Ok (negb e) /\
+         ccompare hs LE (CSet a) (CSet b) = Ok le /\ ccompare hs LT (CSet a) (CSet b) = Ok (le && negb e) /\
+         ccompare hs GE (CSet b) (CSet a) = Ok le /\ ccompare hs GT (CSet b) (CSet a) = Ok (le && negb e) /\
+         (e = true -> le = true)).
+Proof. intro hs. exact (conj (set_le_refl hs) (conj (set_le_antisym hs) (conj (set_le_trans hs) (set_ops_lemma hs)))). Qed.
+
+(* ---- non-vacuity for the dict / set theorems ---- *)
+Definition cI (z : Z) : cval := CAtom (AInt z).
+Definition cF1 : cval := CAtom (AFloat (FFin false 1 0)).           (* 1.0 *)
+Definition kI (z : Z) : value := VAtom (AInt z).
+Definition kF (m e : Z) : value := VAtom (AFloat (FFin false m e)).
+(* {1: "a", 2.0: (1, 2)}  and  {2: (1.0, 2), 1.0: "a"} *)
+Definition ex_d1 : cval := CDict [(kI 1, CAtom (AStr [97])); (kF 1 1, CTuple [cI 1; cI 2])].
+Definition ex_d2 : cval := CDict [(kI 2, CTuple [cF1; cI 2]); (kF 1 0, CAtom (AStr [97]))].
+(* the tuple keys (1, "x") and (1.0, "x") *)
+Definition ex_k : value := VTuple [kI 1; VAtom (AStr [120])].
+Definition ex_k' : value := VTuple [kF 1 0; VAtom (AStr [120])].
+(* {(1, "x"): [{1: nan}], None: {2}} : dict in list in dict, NaN, a set *)
+Definition ex_d3 : cval :=
+  CDict [(ex_k, CList [CDict [(kI 1, CAtom (AFloat FNaN))]]); (VAtom ANone, CSet [kI 2])].
+Definition ex_d3' : cval :=
+  CDict [(VAtom ANone, CSet [kF 1 1]); (ex_k', CList [CDict [(kF 1 0, CAtom (AFloat FNaN))]])].
+
+Example coll_premises_hold :
+  cok h0 ex_d1 = true /\ cok h0 ex_d2 = true /\
+  ccompare h0 EQL ex_d1 ex_d2 = Ok true /\ ccompare h0 NEQ ex_d1 ex_d2 = Ok false /\ ccompare h0 LT ex_d1 ex_d2 = ErrUnord /\
+  cok h0 ex_d3 = true /\ cok h0 ex_d3' = true /\ ccompare h0 EQL ex_d3 ex_d3' = Ok true /\ ccompare h0 EQL ex_d3 ex_d3 = Ok true /\
+  ccompare h0 EQL ex_d1 ex_d3 = Ok false /\
+  (* a tuple key looked up by an == tuple key; insertion under it updates *)
+  kok h0 ex_k = true /\ kok h0 ex_k' = true /\ compare h0 EQL ex_k ex_k' = Ok true /\
+  cdict_get h0 [(kI 5, cI 0); (ex_k, cI 7)] ex_k' = Ok (Some (cI 7)) /\
+  cdict_insert h0 [(kI 5, cI 0); (ex_k, cI 7)] ex_k' (cI 8) = Ok [(kI 5, cI 0); (ex_k, cI 8)] /\
+  cdict_insert h0 [(kI 5, cI 0)] ex_k' (cI 8) = Ok [(kI 5, cI 0); (ex_k', cI 8)] /\
+  cset_has h0 [kI 5; ex_k] ex_k' = Ok true /\ cin_dict h0 [(ex_k, cI 7)] (kI 1) = false /\
+  (* an unhashable key is an error of Get / Has (and `in dict` says False) *)
+  cdict_get h0 [(kI 5, cI 0)] (VList []) = ErrUnord /\ cin_dict h0 [(kI 5, cI 0)] (VList []) = false /\
+  (* the guard rejects what insert cannot build: == keys twice, an unhashable key *)
+  cok h0 (CDict [(kI 1, cI 0); (kF 1 0, cI 0)]) = false /\ cok h0 (CSet [VList []]) = false /\
+  (* sets: {1, 2} <= {2.0, 1, 3}, strictly; {1, 2} == {2.0, 1.0} *)
+  ccompare h0 LE (CSet [kI 1; kI 2]) (CSet [kF 1 1; kI 1; kI 3]) = Ok true /\
+  ccompare h0 LT (CSet [kI 1; kI 2]) (CSet [kF 1 1; kI 1; kI 3]) = Ok true /\
+  ccompare h0 GE (CSet [kI 1; kI 2]) (CSet [kF 1 1; kI 1; kI 3]) = Ok false /\
+  ccompare h0 EQL (CSet [kI 1; kI 2]) (CSet [kF 1 1; kF 1 0]) = Ok true /\
+  ccompare h0 LT (CSet [kI 1; kI 2]) (CSet [kF 1 1; kF 1 0]) = Ok false /\
+  (* the depth limit applies to dict values *)
+  ccompare_depth h0 1 EQL (CDict [(kI 1, CDict [])]) (CDict [(kI 1, CDict [])]) = ErrDepth /\
+  Permutation [(kI 1, cI 0); (kI 2, cI 1)] [(kI 2, cI 1); (kI 1, cI 0)].
+Proof. vm_compute. repeat split; try discriminate. apply perm_swap. Qed.
